@@ -1,6 +1,76 @@
-import PppModel.Auto
+import PppModel.Lemmas.V2NoPanic
+import PppModel.Lemmas.V1NoPanic
+import PppModel.Props.C11
+import PppModel.Props.C15
 
-/-! # C03 (theorems under construction) -/
+/-!
+# C03 — parsing, accessors and iteration never panic or hang on any input
+
+The driver that is compared with the real crate runs the *panic-aware* layer of
+the model (`…P` functions, which `panic` wherever the Rust would: index or slice
+out of range, `&str` slice off a character boundary, `copy_from_slice` length
+mismatch, `usize` subtraction underflow). The theorems below say that this layer
+never panics and agrees with the pure layer all other theorems are about.
+Because no `subP` ever underflows, overflow-checked and unchecked builds agree.
+
+"No hang": every model function is total (structural or well-founded recursion
+accepted by Lean); the iterator makes strict progress (`tlv_progress`). That the
+*Rust* loops terminate is observed by the harness (step cap), see DESIGN.md 11.
+-/
 
 namespace C03
+
+/-- `v1::Header::try_from(&[u8])`: every byte string. -/
+theorem parseBytes_no_panic (x : B) : V1.parseBytesP x = .val (V1.parseBytes x) :=
+  V1.parseBytes_no_panic x
+
+/-- `v1::Header::try_from(&str)` and both `FromStr` impls (they add no partial
+operation): every valid UTF-8 string, including multi-byte characters adjacent
+to the CR. -/
+theorem parseStr_no_panic (x : B) (hx : Utf8.valid x = true) : V1.parseStrP x = .val (V1.parseStr x) :=
+  V1.parseStr_no_panic x hx
+
+/-- `v2::Header::try_from(&[u8])`: every byte string. -/
+theorem v2_parse_no_panic (x : B) : V2.parseP x = .val (V2.parse x) := V2.parseP_eq x
+
+/-- `HeaderResult::parse`: every byte string. -/
+theorem auto_parse_no_panic (x : B) : Auto.parseP x = .val (Auto.parse x) := by
+  simp only [Auto.parseP, Auto.parse, V2.parseP_eq, V1.parseBytes_no_panic, Outcome.val_bind]
+  split <;> rfl
+
+/-- Accessors of an accepted v2 header: `length`, `address_bytes`, `tlv_bytes`
+(and `tlvs()`, which is `tlv_bytes` plus the iterator below). `len`, `is_empty`,
+`address_family`, `as_bytes`, `Display`, `to_owned` have no partial operation. -/
+theorem v2_accessors_no_panic {x : B} {h : V2.Header} (hp : V2.parse x = .ok h) :
+    h.lengthP = .val h.length ∧ h.addressBytesEndP = .val h.addressBytesEnd ∧
+    h.addressBytesP = .val h.addressBytes ∧ h.tlvBytesP = .val h.tlvBytes :=
+  V2.accepted_accessors hp
+
+/-- `addresses_str` of an accepted v1 header (the only v1 accessor with index
+arithmetic and `&str` slicing); `protocol`, `Display`, `to_owned` are total. -/
+theorem v1_accessors_no_panic {x : B} {h : V1.Header} :
+    (V1.parseBytes x = .ok h → h.addressesStrP = .val h.addressesStr) ∧
+    (Utf8.valid x = true → V1.parseStr x = .ok h → h.addressesStrP = .val h.addressesStr) :=
+  ⟨C15.parse_accessors_no_panic, C15.parseStr_accessors_no_panic⟩
+
+/-- `TypeLengthValues::next`: every iterator state over every byte slice. -/
+theorem tlv_next_no_panic (it : V2.Iter) : it.nextP = .val it.next := V2.nextP_eq it
+
+/-- Iterating a section of `n` bytes ends after at most `n / 3 + 1` items. -/
+theorem tlv_count_bound (bs : B) : (V2.tlvCollect bs).length ≤ bs.length / 3 + 1 := C11.count_bound bs
+
+/-- The cursor moves strictly forward on every item and stays inside the section;
+once it reaches the end `next` returns `None`, and keeps doing so. -/
+theorem tlv_progress (it it' : V2.Iter) (i : V2.Item) (h : it.next = some (i, it')) :
+    it.offset < it'.offset ∧ it'.bytes = it.bytes ∧ it'.offset ≤ it.bytes.length :=
+  V2.next_offset_ge it it' i h
+
+theorem tlv_fused (it : V2.Iter) : it.next = none ↔ it.bytes.length ≤ it.offset := V2.next_none_iff it
+
+/-- Non-vacuity: the boundary cases the property names. -/
+example : V1.parseStrP [0x0D, 0xE2, 0x82, 0xAC] = .val (.error .invalidSuffix) := by decide
+example : V2.parseP [0x0D, 0x0A] = .val (.error (.incomplete 2)) := by decide
+example : (V2.Iter.ofBytes [4, 0xFF, 0xFF]).nextP =
+    .val (some (.error (.invalidTLV 4 65535), { bytes := [4, 0xFF, 0xFF], offset := 3 })) := by decide
+
 end C03
